@@ -1,5 +1,6 @@
 import TSSVerif.Driver.Util
 import TSSVerif.Model.Wire
+import TSSVerif.Model.WireDisc
 namespace TSSVerif.Driver
 open TSSVerif.Model
 
